@@ -125,9 +125,11 @@ def handleE (line : String) : Except String String := do
     if !(wfDom a && wfDom b) then return verdict "intersect" impl model none "modelonly"
     let cands := sampleMembers a.interval cap ++ sampleMembers b.interval cap ++ wit ++
       membersNear a.interval b.interval.start ++ membersNear a.interval b.interval.stop ++
-      membersNear b.interval a.interval.start ++ membersNear b.interval a.interval.stop
+      membersNear b.interval a.interval.start ++ membersNear b.interval a.interval.stop ++
+      -- the members the model keeps (for huge strides the only common member is found by no sampling)
+      (match a.intersect b with | some r => [r.interval.start, r.interval.stop] | none => [])
     let feas := cands.filter (fun x => decide (a.Mem x ∧ b.Mem x))
-    -- the code documents that it gives up (`Err`) if the stride of the intersection exceeds `u64::MAX`
+    -- strides whose lcm exceeds `u64::MAX` (before the repair the code gave up with `Err` there)
     let lcmOverflow := a.w ≤ 64 && Nat.lcm a.interval.stride b.interval.stride > 2 ^ 64 - 1
     let big := a.interval.stride * b.interval.stride ≥ 2 ^ 63
     return verdict (if lcmOverflow then "intersect-lcm-overflow" else s!"intersect-{wclass a.w}") impl model (specRefine feas r a.w)
